@@ -271,6 +271,41 @@ func main() {
 			}
 		}
 	}
+	// GC as the explored recovery actor of one dead 3-key transaction (common.ExploredRecoveryWith "gc"):
+	// one preemption inside the GC pass, so that the answers to the concurrent status checks of its
+	// async-commit recovery (CheckSecondaryLocks per region) arrive in either order.
+	for _, er := range common.ExploredRecoveryWith(run.Thorough(), keys, "gc") {
+		if !run.Thorough() && !(strings.Contains(er.Name, "async") && strings.Contains(er.Name, "split@b,c")) {
+			continue
+		}
+		er := er
+		mk := func() *txnh.TxnScenario {
+			sc := er.Make()
+			sc.CheckFn = func(s *txnh.TxnScenario, x *sched.Exec) []sched.Violation {
+				if !common.GCDone || common.GCErr != nil {
+					return nil // GC not finished (horizon) or reported failure: not judged
+				}
+				var out []sched.Violation
+				for _, l := range s.W.B.Locks() {
+					out = append(out, sched.Violation{Key: "gc:lock-left-behind", What: fmt.Sprintf("GC succeeded but a %s lock of start ts %d on %q remains", l.Type, l.StartTS, l.Key)})
+				}
+				vs, _, _ := common.AuditVictimR(s, x, 0, "", "reader-gc")
+				for _, sv := range vs {
+					sv.Key = "gc:" + sv.Key
+					out = append(out, sv)
+				}
+				return out
+			}
+			return sc
+		}
+		specs[er.Name] = mk
+		jobs = append(jobs, sched.Job{Name: er.Name, Run: func(dl time.Time) sched.Report {
+			sc := mk()
+			x := &sched.Explorer{Sc: sc, B: sched.Bounds{P: 1, F: 2, Horizon: 500, EarlyTimers: false, Deadline: dl}}
+			x.Outcome = func(e *sched.Exec) string { return sc.H.Txns[0].Outcome + fmt.Sprint(len(sc.W.Log())) }
+			return x.Explore(false)
+		}})
+	}
 	if gridReplay(run) {
 		return
 	}
@@ -293,6 +328,7 @@ func main() {
 	common.Finish(run, jobs, res, common.FinishOpts{
 		Bounds: map[string]any{"faults": F, "scan_limits": []int{1, 2, 3}, "keys": keys, "range_task": extra},
 		Rule: "A: two victim transactions (shapes x lock modes x commit protocols) crashed at every combination of seam events within the fault budget (each crash and each split costs one), then tikv.ResolveLocksForRange as an actor with scan limit 1..3 and an optional region split before any ScanLock/ResolveLock RPC; after a successful pass: no lock <= safe point anywhere, versions committed before are unchanged, every victim all-or-nothing with one commit ts and consistent with its acknowledgement. " +
+			"A2: one dead 3-key transaction (crash at any seam event) and GC as the explored recovery actor with one preemption inside the pass (the answers to the concurrent status checks of its async-commit recovery in either order); " +
 			"B: rangetask.Runner.RunOnRange with a recording handler over all layouts of <= 3 split keys x all (start,end) incl. unbounded x concurrency {1,3} x regions-per-task {1,2} x failing sub-range index; C: DeleteRangeTask over the same grid against a map model; C2: DeleteRangeTask on 8 keys over all layouts x ranges x concurrency {1,3} with one (thorough: two) region split(s) injected at the RPC seam right before the first DeleteRange request whose range strictly contains the split key is delivered (the store answers EpochNotMatch and the task must retry that piece), exactly the keys of [start,end) removed; D: snapshot Get/BatchGet/Iter/IterReverse at ts in {sp-1, sp, sp+1} after UpdateTxnSafePointCache(sp); D2: the same four read paths at a ts below a safe point that the store learns (with and without the MVCC GC actually running) between the call and the delivery of the first read RPC: must be refused. distinct_nontrivial = distinct (victim outcomes, crash/split positions) classes",
 		Assumptions: []string{
 			"GC starts only after every transaction below the safe point has ended or crashed (the GC contract)",
